@@ -633,5 +633,33 @@ func (g *Gen) axiomRelevant(ax, body string) bool {
 			return false
 		}
 	}
-	return any || pi < 0
+	if any || pi < 0 {
+		return any || pi < 0
+	}
+	// the pattern mentions only built-in/datatype symbols: decide on the declared functions of the whole axiom
+	for _, m := range axiomSymRe.FindAllStringSubmatch(ax, -1) {
+		f := m[1]
+		if builtinOps[f] || !g.funSeen[f] {
+			continue
+		}
+		if strings.Contains(body, "("+f+" ") {
+			return true
+		}
+	}
+	return false
+}
+
+// HasElem declares the membership predicate of a slice sort with its defining axioms:
+//   (A1) every element at an index below len is a member; (A2) a member has a witness index (Skolem function).
+func (g *Gen) HasElem(s string) string {
+	es := g.sliceElem[s]
+	fn := "has_elem_" + mangle(s)
+	if g.funSeen[fn] {
+		return fn
+	}
+	g.DeclFun(fn, []string{s, es}, "Bool")
+	g.DeclFun(fn+"_idx", []string{s, es}, "Int")
+	g.Axiom("has_elem.intro."+s, fmt.Sprintf("(forall ((s %s) (i Int)) (! (=> (and (<= 0 i) (< i (%s_len s))) (%s s (select (%s_arr s) i))) :pattern ((select (%s_arr s) i))))", s, s, fn, s, s))
+	g.Axiom("has_elem.elim."+s, fmt.Sprintf("(forall ((s %s) (v %s)) (! (=> (%s s v) (and (<= 0 (%s_idx s v)) (< (%s_idx s v) (%s_len s)) (= (select (%s_arr s) (%s_idx s v)) v))) :pattern ((%s s v))))", s, es, fn, fn, fn, s, s, fn, fn))
+	return fn
 }
